@@ -102,6 +102,70 @@ def well_formed(s, f):
             return b""
 
 
+def _sample(leaf):
+    """a value the data item class accepts"""
+    for c in (1, "A", True, b"\x01", 1.5, [1]):
+        try:
+            leaf(c)
+            return c
+        except Exception:  # noqa: BLE001
+            continue
+    return None
+
+
+def shape_value(fmt, n):
+    """type-directed value for an item descriptor (a data item class, or a list: optional name, then one element = open list
+    of it, several elements = fixed structure): every open list gets `n` elements, every leaf a value it accepts"""
+    if isinstance(fmt, list):
+        items = fmt[1:] if fmt and isinstance(fmt[0], str) else fmt
+        if len(items) == 1:
+            return [shape_value(items[0], n) for _ in range(n)]
+        return [shape_value(it, n) for it in items]
+    return _sample(fmt)
+
+
+def shape_of(var, n):
+    """the same, walking the variable tree of a function object (`List` = fixed structure, `Array` = open list)"""
+    import secsgem.secs.variables as V
+    if isinstance(var, V.List):
+        return [shape_of(x, n) for x in var.data.values()]
+    if isinstance(var, V.Array):
+        return [shape_value(var.item_decriptor, n) for _ in range(n)]
+    return _sample(type(var))
+
+
+def shaped_bodies(s, f):
+    """bodies in which every open list of the function's structure is empty / has one element / has several"""
+    cls = CAT_CLS.get((s, f))
+    out = []
+    if cls is None:
+        return out
+    try:
+        probe = cls()
+    except Exception:  # noqa: BLE001
+        return out
+    if probe.data is None:
+        return out
+    for n in (0, 1, 3):
+        try:
+            out.append((f"shape-{n}", cls(shape_of(probe.data, n)).encode()))
+        except Exception:  # noqa: BLE001
+            pass
+    return out
+
+
+class SlowPutQueue(__import__("queue").Queue):
+    """send queue whose producer loses the cpu when it is about to enqueue: the protocol thread, if triggered before, runs its
+    pass in between"""
+
+    delay = 0.0
+
+    def put(self, item, block=True, timeout=None):
+        if self.delay:
+            time.sleep(self.delay)
+        super().put(item, block, timeout)
+
+
 def bodies(rng, s, f):
     wf = well_formed(s, f)
     out = [("wellformed", wf), ("empty", b"")]
@@ -280,8 +344,12 @@ class Stream:
                 klass = "registered-callback-not-called"
                 res.violate(klass, f"S{s}F{f} W: a callback exists and was not called; written: {show}", case, "the callback's reply", show)
                 return
+            elif outcome[1] == "none" and (s, f) not in self.user:
+                res.violate("builtin-callback-no-reply", f"S{s}F{f} W: the built-in callback returned None and nothing was written",
+                            case, "its secondary or SxF0", show)
+                return
             else:
-                res.bump("outside_statement", "callback returned None" if outcome[1] == "none" else "callback replied itself, then raised")
+                res.bump("outside_statement", "user callback returned None" if outcome[1] == "none" else "callback replied itself, then raised")
                 return
             if len(data) == 1 and (data[0][1], data[0][2]) == want[1]:
                 if (s, f) in self.user and outcome is not None and outcome[1] == "fn" and self.user_reply_body is not None \
@@ -364,6 +432,11 @@ def drive(role, res, rng, flags, tier, search, replay_cases=None):
             for tag, body in bodies(rng, s, f):
                 for w in (1, 0):
                     st.send(s, f, w, body, tag)
+        # 1a. built-in callbacks: every open list of the body empty / one element / several
+        for (s, f) in builtin:
+            for tag, body in shaped_bodies(s, f):
+                for w in (1, 0):
+                    st.send(s, f, w, body, tag)
         # 1b. boundary system bytes (the reply must echo them exactly), then the same system bytes once more (a closed
         #     transaction's system bytes may be used again)
         for system in (0, 1, 0x7FFFFFFF, 0x80000000, 0xFFFFFFFE, 0xFFFFFFFF, 0):
@@ -427,6 +500,31 @@ def drive(role, res, rng, flags, tier, search, replay_cases=None):
         raise
 
 
+def quiet_link_cases(role, res, flags):
+    """the reply must be written although nothing else happens on the link: the dispatcher is held for a moment just before
+    it enqueues the reply block (a legal interleaving with the protocol thread, forced by a slow `put`)"""
+    st = Stream(role, res, flags)
+    q = SlowPutQueue()
+    st.rig.p._send_queue = q
+    q.delay = 0.05
+    old_wait = gemrig.WAIT
+    gemrig.WAIT = 2.0
+    try:
+        for (s, f, body) in ((1, 1, b""), (99, 1, b""), (1, 3, b"\xff")):
+            try:
+                st.send(s, f, 1, body, "quiet-link")
+            except Stuck:
+                res.violate("reply-not-written-on-quiet-link",
+                            f"S{s}F{f} W: the reply was handed to send_message but not written within {gemrig.WAIT} s while the link is quiet "
+                            "(the dispatcher is still blocked in BlockSendInfo.wait)",
+                            {"role": role, "s": s, "f": f, "w": 1, "body": "quiet-link", "body_hex": body.hex(), "user": {}, "slow_put_s": q.delay})
+                break
+    finally:
+        gemrig.WAIT = old_wait
+        q.delay = 0.0
+    return st
+
+
 def gate_cases(role, res, flags):
     """before the link is selected / before COMMUNICATING: Reject.req resp. nothing (correspondence of the gate only)"""
     out = []
@@ -461,7 +559,9 @@ def main():
             cs += [b["case"] for b in body.get("breaks", []) if isinstance(b, dict) and isinstance(b.get("case"), dict) and "s" in b["case"]]
             if cs:
                 for role in ("equipment", "host"):
-                    mine = [c for c in cs if c["role"] == role]
+                    if any(c["role"] == role and c.get("body") == "quiet-link" for c in cs):
+                        streams.append(quiet_link_cases(role, res, flags))
+                    mine = [c for c in cs if c["role"] == role and c.get("body") != "quiet-link"]
                     if mine:
                         streams.append(drive(role, res, rng, flags, a.tier, True, replay_cases=mine))
             else:
@@ -470,6 +570,7 @@ def main():
             for role in ("equipment", "host"):
                 streams.append(drive(role, res, rng.fork(role), flags, a.tier, a.search))
                 streams += gate_cases(role, res, flags)
+                streams.append(quiet_link_cases(role, res, flags))
     except Stuck as exc:
         res.violate("wedged", f"bounded wait ran out: {exc}", {"stream": len(streams)})
     # ---- generated facts vs the real classes
